@@ -232,6 +232,7 @@ func CheckC17(c *Ctx) {
 			measure("", op)
 		}
 	}
+	c.Extra["sinks_alive"] = probe.KeepAlive() > 0
 	c.Extra["remeasurements_needed"] = remeasured
 	c.Extra["measured_means_histogram"] = hist
 	c.Extra["toolchain"] = runtime.Version()
